@@ -32,6 +32,9 @@ _ext("niltype", "Nilable", Builtin("typing_any"))
 _ext("typing", "cast", Builtin("cast"))
 _ext("copy", "deepcopy", Builtin("deepcopy"))
 _ext("math", "isclose", Builtin("isclose"))
+_ext("math", "isfinite", Builtin("isfinite"))
+_ext("math", "isnan", Builtin("isnan"))
+_ext("math", "isinf", Builtin("isinf"))
 _ext("th", "PathHolder", Cls("PathHolder"))
 _ext("datetime", "datetime", Cls("datetime"))
 _ext("datetime", "date", Cls("date"))
@@ -103,7 +106,9 @@ class Exec:
         s.add(z3.Not(goal))
         return s.check() == z3.unsat
 
-    def branch(self, st: State, c: Any) -> List[Tuple[State, bool]]:
+    def branch(self, st: State, c: Any, exc: Optional[str] = None, what: str = "") -> List[Tuple[State, bool]]:
+        """Fork on condition c.  With `exc`, c is the no-exception condition of a primitive: when the
+        raising side is infeasible an exception-freedom obligation is recorded (C08 / C10 / C12)."""
         c = z3.simplify(c)
         if z3.is_true(c):
             return [(st, True)]
@@ -113,6 +118,10 @@ class Exec:
         nc = z3.Not(c)
         t_ok = self.sat(st, c)
         f_ok = self.sat(st, nc)
+        if exc is not None and t_ok and not f_ok:
+            self.nothrow_ctr = getattr(self, "nothrow_ctr", 0) + 1
+            self.oblige(st, f"{self.fname.split(':')[-1]}:nothrow[{exc}]#{self.nothrow_ctr}", "nothrow", c,
+                        getattr(self, "nothrow_props", ()), text=f"{what} cannot raise {exc} here")
         if t_ok and f_ok:
             out.append((st.fork().assume(c), True))
             out.append((st.assume(nc), False))
@@ -770,7 +779,7 @@ class Exec:
         both_str = z3.And(M.is_StrV(za), M.is_StrV(zb))
         ok = z3.Or(both_num, both_str)
         out: List[Tuple[State, Any]] = []
-        for s, good in self.branch(st, ok):
+        for s, good in self.branch(st, ok, "TypeError", "ordering comparison"):
             if not good:
                 out.append((s, Raised("TypeError", None, "ordering comparison of unorderable kinds")))
                 continue
@@ -842,7 +851,7 @@ class Exec:
         if h == "str":
             ok = M.is_StrV(zi)
             out = []
-            for s, good in self.branch(st, ok):
+            for s, good in self.branch(st, ok, "TypeError", "'in <str>'"):
                 if good:
                     out.append((s, z3.Contains(M.sval(zc), M.sval(zi))))
                 else:
@@ -892,7 +901,7 @@ class Exec:
         if isinstance(op, (ast.Add, ast.Sub, ast.Mult)):
             ok = z3.And(M.is_num(za), M.is_num(zb))
             out = []
-            for s, good in self.branch(st, ok):
+            for s, good in self.branch(st, ok, "TypeError", "arithmetic"):
                 if not good:
                     out.append((s, Raised("TypeError", None, "unsupported operand types for arithmetic")))
                     continue
@@ -1047,13 +1056,13 @@ class Exec:
         zi = self.term(idx, st)
         if h in ("list", "tuple"):
             out = []
-            for s, isint in self.branch(st, M.is_intlike(zi)):
+            for s, isint in self.branch(st, M.is_intlike(zi), "TypeError", "list index"):
                 if not isint:
                     out.append((s, Raised("TypeError", None, "list indices must be integers")))
                     continue
                 n = M.llen(z)
                 i = self.norm_index(M.int_of(zi), n)
-                for s2, inr in self.branch(s, z3.And(0 <= i, i < n)):
+                for s2, inr in self.branch(s, z3.And(0 <= i, i < n), "IndexError", "list index"):
                     if inr:
                         out.append((s2, T(M.lat(z, i), None)))
                     else:
@@ -1061,7 +1070,7 @@ class Exec:
             return out
         if h == "dict":
             out = []
-            for s, inn in self.branch(st, M.has(z, zi)):
+            for s, inn in self.branch(st, M.has(z, zi), "KeyError", "dict subscript"):
                 if inn:
                     out.append((s, T(M.dget(z, zi), None)))
                 else:
@@ -1071,7 +1080,7 @@ class Exec:
             out = []
             n = z3.Length(M.sval(z))
             i = self.norm_index(M.int_of(zi), n)
-            for s2, inr in self.branch(st, z3.And(0 <= i, i < n)):
+            for s2, inr in self.branch(st, z3.And(0 <= i, i < n), "IndexError", "str index"):
                 if inr:
                     out.append((s2, T(M.StrV(z3.SubString(M.sval(z), i, 1)), "str")))
                 else:
@@ -1085,7 +1094,8 @@ class Exec:
         cur = z3.Select(st.ph, zp)
         st.ph = z3.Store(st.ph, zp, z3.Concat(cur, z3.Unit(zk)))
         # frame obligation (C03 / C07): only PathHolders allocated in this activation may be mutated
-        fresh = M.rid(zp) >= z3.Int("alloc0")
+        floor = getattr(self, "frame_floor", None)
+        fresh = M.rid(zp) >= (floor if floor is not None else z3.Int("alloc0"))
         self.oblige(st, "frame:PathHolder.__getitem__", "frame", fresh, ("C03", "C07"),
                     text="path[k] appends in place: the PathHolder must have been allocated (deepcopied) "
                          "in this activation", where=self.where())
@@ -1353,9 +1363,112 @@ class Exec:
             if isinstance(c, Raised):
                 out.append((s, c))
                 continue
-            for s2, b in self.branch(s, self.truth(c, s)):
-                out += self.ex_block(stmt.body if b else stmt.orelse, s2)
+            base_len = len(s.pc)
+            cond = z3.simplify(self.truth(c, s))
+            br = self.branch(s, cond)
+            if len(br) == 2:
+                (sT, _), (sF, _) = br
+                oT = self.ex_block(stmt.body, sT)
+                oF = self.ex_block(stmt.orelse, sF) if stmt.orelse else [(sF, NORMAL)]
+                nT = [x for x in oT if x[1] is NORMAL]
+                nF = [x for x in oF if x[1] is NORMAL]
+                if len(nT) == 1 and len(nF) == 1:
+                    m = self.merge(cond, nT[0][0], nF[0][0], base_len)
+                    if m is not None:
+                        out += [x for x in oT if x[1] is not NORMAL]
+                        out += [x for x in oF if x[1] is not NORMAL]
+                        out.append((m, NORMAL))
+                        continue
+                out += oT + oF
+            else:
+                for s2, b in br:
+                    out += self.ex_block(stmt.body if b else stmt.orelse, s2)
         return out
+
+    # ---------------------------------------------------------------- join-point merging
+    def merge(self, c: Any, a: State, b: State, base_len: int) -> Optional[State]:
+        """Merge the two normal continuations of an `if` (condition c holds in a, not in b)."""
+        if len(a.pc) <= base_len or len(b.pc) <= base_len:
+            return None
+        for x, y in zip(a.pc[:base_len], b.pc[:base_len]):
+            if x is not y and not z3.eq(x, y):
+                return None
+        nc = z3.Not(c)
+
+        def mval(x: Any, y: Any) -> Any:
+            if x is y or x == y:
+                return x
+            if isinstance(x, T) and isinstance(y, T):
+                if z3.eq(x.z, y.z):
+                    return T(x.z, x.hint if x.hint == y.hint else None)
+                return T(named(z3.If(c, x.z, y.z)), x.hint if x.hint == y.hint else None)
+            if isinstance(x, Kw) and isinstance(y, Kw) and z3.eq(x.z, y.z):
+                return x
+            if isinstance(x, Tup) and isinstance(y, Tup) and len(x.items) == len(y.items):
+                its = [mval(p, q) for p, q in zip(x.items, y.items)]
+                if any(i is None for i in its):
+                    return None
+                return Tup(tuple(its))
+            return None
+
+        m = State()
+        m.pc = list(a.pc[:base_len])
+        defs: List[Any] = []
+
+        def named(e: Any) -> Any:
+            # ite terms are not allowed inside quantifier patterns: name every merged value
+            k = M.fresh("mg", e.sort())
+            defs.append(k == e)
+            return k
+        sa, sb = a.pc[base_len + 1:], b.pc[base_len + 1:]
+        if sa:
+            m.pc.append(z3.Implies(c, z3.And(*sa)))
+        if sb:
+            m.pc.append(z3.Implies(nc, z3.And(*sb)))
+        m.notes = a.notes
+        # variables: a name bound on only one side stays bound (reading it on the other side would be
+        # an UnboundLocalError in Python; d42 never does that)
+        for k in set(a.env) | set(b.env):
+            if k in a.env and k in b.env:
+                v = mval(a.env[k], b.env[k])
+                if v is None:
+                    return None
+                m.env[k] = v
+            else:
+                m.env[k] = a.env.get(k, b.env.get(k))
+        for cid_ in set(a.cells) | set(b.cells):
+            ca, cb = a.cells.get(cid_), b.cells.get(cid_)
+            if ca is None or cb is None:
+                m.cells[cid_] = ca if ca is not None else cb
+                continue
+            if ca is cb or ca == cb:
+                m.cells[cid_] = ca
+                continue
+            if type(ca) is not type(cb):
+                return None
+            if isinstance(ca, (ListC, DictC)):
+                snap = ca.snap if z3.eq(ca.snap, cb.snap) else named(z3.If(c, ca.snap, cb.snap))
+                m.cells[cid_] = type(ca)(snap, ca.frozen or cb.frozen)
+                continue
+            if isinstance(ca, ObjC):
+                if ca.cls != cb.cls or ca.frozen != cb.frozen:
+                    return None
+                da, db = dict(ca.attrs), dict(cb.attrs)
+                if set(da) != set(db):
+                    return None
+                attrs = []
+                for k in da:
+                    v = mval(da[k], db[k])
+                    if v is None:
+                        return None
+                    attrs.append((k, v))
+                m.cells[cid_] = ObjC(ca.cls, tuple(attrs), ca.ident, ca.frozen)
+                continue
+            return None
+        m.ph = a.ph if (a.ph is b.ph or z3.eq(a.ph, b.ph)) else named(z3.If(c, a.ph, b.ph))
+        m.alloc = a.alloc if (a.alloc is b.alloc or z3.eq(a.alloc, b.alloc)) else z3.If(c, a.alloc, b.alloc)
+        m.pc += defs
+        return m
 
     def ex_Assign(self, stmt: ast.Assign, st: State):
         out = []
@@ -1474,7 +1587,7 @@ class Exec:
             if len(star) != 1 or star[0] != len(elts) - 1:
                 raise Unsupported("starred unpack form")
             k = len(elts) - 1
-            for s, ok in self.branch(st, n >= k):
+            for s, ok in self.branch(st, n >= k, "ValueError", "unpacking"):
                 if not ok:
                     out.append((s, Raised("ValueError", None, "not enough values to unpack")))
                     continue
@@ -1494,7 +1607,7 @@ class Exec:
                         fin.append((s2, o))
                 out += fin
             return out
-        for s, ok in self.branch(st, n == len(elts)):
+        for s, ok in self.branch(st, n == len(elts), "ValueError", "unpacking"):
             if not ok:
                 out.append((s, Raised("ValueError", None, "unpack arity")))
                 continue
